@@ -211,10 +211,14 @@ func runC10(c *Ctx, idx int) {
 	}
 	doc := parseHTML(src)
 	els := allElements(doc)
-	pageURL := mustURL("http://user:pw@example.com/story/alpha/page/2/?x=1#frag")
-	if idx%2 == 0 {
-		pageURL = mustURL(g.P.PageURL)
-	}
+	pageURL := mustURL([]string{
+		"http://user:pw@example.com/story/alpha/page/2/?x=1#frag",
+		g.P.PageURL,
+		"http://example.com/story/alpha/page/2/",
+		"http://example.com/story/alpha/",
+		"HTTP://Example.COM/story/alpha%20beta/page/2/?q=a%2Fb#Frag",
+		"https://example.com/",
+	}[idx%6])
 	witness := func(extra map[string]any) map[string]any {
 		w := map[string]any{"html": src, "page_url": pageURL.String()}
 		for k, v := range extra {
